@@ -551,6 +551,7 @@ def engine_selfcheck(mach, tn, index, tracer, paths, n, seed):
         if exc:
             continue
         matched = 0
+        inconclusive = False
         for st in paths:
             if st.cut or st.raised is not None or len(st.reglist.items) != 30:
                 continue
@@ -568,7 +569,11 @@ def engine_selfcheck(mach, tn, index, tracer, paths, n, seed):
             s.add(st.facts)
             s.add(poly.reveal(st.defs))
             s.add(st.pc)
-            if s.check() != z3.sat:
+            res = s.check()
+            if res == z3.unknown:
+                inconclusive = True     # solver budget exhausted (busy machine): this sample says nothing
+                continue
+            if res != z3.sat:
                 continue
             matched += 1
             if matched > 1:
@@ -585,6 +590,8 @@ def engine_selfcheck(mach, tn, index, tracer, paths, n, seed):
                 mv = m.eval(z3.Select(st.mem.arr, a.t), model_completion=True).as_long()
                 if 0 <= av < 65536 and mv != flat1[av]:
                     bad.append(('memory[%d]: engine %d, CPython %d' % (av, mv, flat1[av]), case))
+        if inconclusive and matched != 1:
+            continue
         if matched != 1:
             bad.append(('%d paths match a concrete state (expected exactly 1)' % matched, case))
         done += 1
